@@ -48,7 +48,7 @@ func quoteMetaNative(s string) string {
 }
 
 // candidates tried for a raw (unquoted) symbolic fragment reaching the regexp compiler
-var rawCandidates = []string{"", "a", ".", "a.b", "+", "(", "[", "\\", "a+", "x|y", "^", "$"}
+var rawCandidates = []string{"", "a", ".", "a.b", "+", "(", "[", "\\", "a+", "x|y", "^", "$", "\\E", "\\E.\\Q", "\\Q"}
 
 func (in *Interp) compileRegex(src Term) (Value, string) {
 	pieces := src.Cat
